@@ -4,8 +4,16 @@ Same machine as C02 (spec/CtcDecoder.tla) with the LM part switched on: a toy hi
 prefix) implemented identically in TLA+ (LMw, EosW) and in Python (harness/ctc_common.ToyLM).  TLC proves LmExact /
 LmExactEos on the design; every real execution (beam with LM scores after each frame, best_hyp(), confidence(),
 returned state) is validated against CtcDecoder_Trace.
+
+History: the bag a decode hands on is a long-lived object (public LM scale lm_weight, add(), sort()).  For a seeded sample of
+the same matrices the bag is followed through a life - queried, re-weighted in place with other scales of the scope (0 =
+LM-free scoring) and back, copied hypothesis by hypothesis into a bag of the caller, sorted, re-weighted - while the shared
+decoder goes on to other lines (and, for a third of the cases, has just failed on a line that is not normalised); every query
+is validated by TLC against the final beam of the model under the scale of the moment (spec/CtcBag_Trace.tla clauses L1..L5,
+harness/lmbag_common.py).
 """
 from .. import ctc_common as C
+from .. import lmbag_common as B
 from . import c02
 
 LEVEL = "model_checking"
@@ -50,6 +58,57 @@ def _lab(cfg):
         cfg.get("lm_impl", "toy"))
 
 
+# ---- the life of the bag handed on (spec/CtcBag_Trace.tla, harness/lmbag_common.py) -------------------------------------
+LIFE_PER_CONFIG = {"quick": 240, "thorough": 600}
+
+
+def life_scales(cfg):
+    """the scales of the model a bag of this config may be re-weighted with: TLC's 32-bit integers must hold the image
+    vis^sq * lm^sp of every total (as for the scale of the decode itself)"""
+    return [s for s in B.SCALES if fits(dict(cfg, SP=s[0], SQ=s[1]))]
+
+
+def life_configs(ctx, cfgs):
+    """quick: one config per flavour of LM / pruning / end-of-line / initial state; thorough: those and every third other
+    T=3 config"""
+    ok = [c for c in cfgs if c["T"] == 3 and c["NC"] == 2 and len(life_scales(c)) >= 3
+          # L4 (exact posterior for scale 0 / 1): 1000 * sum of totals stays far below 2^31
+          and 2000 * c["D"] ** c["T"] * max(3 * c["Bonus"], c["M"]) ** c["T"] * 3 < 2 ** 31]
+    want = [dict(K=2, SP=1, SQ=1, lm_impl=None), dict(K=3, SP=1, SQ=2, lm_impl=None), dict(K=100, lm_impl=None),
+            dict(lm_impl="wrapped", K=2), dict(lm_impl="deep", K=3)]
+    pick = []
+    for w in want:
+        for c in ok:
+            if all(c.get(k) == v for k, v in w.items()) and c not in pick:
+                pick.append(c)
+                break
+    if ctx.tier == "quick":
+        return pick
+    return pick + [c for c in ok if not any(c is p for p in pick)][::3]
+
+
+def judge_life(ctx, cfg, traces):
+    consts = C.tla_constants(cfg)
+    acc, rej = ctx.validate("CtcBag_Trace", traces, constants=consts, shards=min(2, max(1, len(traces) // 100)),
+                            label="CtcBag_Trace " + _lab(cfg))
+    for tr in traces:
+        nt = tr["outcome"] == "ok" and len(tr["frames"][0]) > 1
+        ctx.count(1, ("life", tuple(map(tuple, tr["mat"])), _lab(cfg)) if nt else None)
+    for idx, prog in rej:
+        tr = traces[idx]
+        sig, what = B.describe(tr, prog, cfg)
+        ctx.violation({"kind": "life", "cfg": cfg, "trace": tr, "progress": prog}, sig,
+                      "%s; config %s, matrix %s" % (what, _lab(cfg), tr["mat"]))
+    return acc, rej
+
+
+def run_life(ctx, cfg, mats):
+    cfg = dict(cfg, salt=ctx.seed)
+    traces = B.run_life(cfg, mats, life_scales(cfg))
+    acc, rej = judge_life(ctx, cfg, traces)
+    return cfg, traces, rej
+
+
 def judge(ctx, cfg, traces):
     consts = C.tla_constants(cfg)
     acc, rej = ctx.validate("CtcDecoder_Trace", traces, constants=consts, label="CtcDecoder_Trace " + _lab(cfg))
@@ -68,27 +127,50 @@ def judge(ctx, cfg, traces):
 def run(ctx):
     ctx.rule = ("every row-normalised matrix of the bounded shape decoded by the real decoder with a toy history-dependent LM "
                 "for each (beam width, LM scale, insertion bonus, EOS, initial state) config; beams with LM scores after every "
-                "frame, best_hyp(), confidence() and the returned state validated by TLC; non-trivial = more than one final hypothesis")
+                "frame, best_hyp(), confidence() and the returned state validated by TLC; non-trivial = more than one final hypothesis; "
+                "for a seeded sample of the matrices the returned bag is re-weighted / re-filled / sorted and queried again (bag life)")
     ctx.exhaustive = True
     ctx.assume("toy LM with state = whole prefix (the LMWrapper interface is respected; real LSTM LMs are not exercised)",
                "LM scales are the rationals 0, 1/2, 1, 3/2, 2, 3; insertion bonus log 1 or log 2",
                "exact ties between hypotheses admit any maximiser")
-    for cfg in configs(ctx):
+    cfgs = configs(ctx)
+    life = life_configs(ctx, cfgs)
+    life_good = None
+    for cfg in cfgs:
         consts = C.tla_constants(cfg)
         ctx.tlc("CtcDecoder", constants=consts, invariants=INVS, workers=8, timeout=3000, label="CtcDecoder " + _lab(cfg))
         mats = list(C.all_matrices(cfg["T"], cfg["NC"], cfg["D"]))
         if cfg["T"] >= 4:
             mats = ctx.rng.sample(mats, 8000)
             ctx.exhaustive = False
+        cfg0 = cfg
         cfg = dict(cfg, salt=ctx.seed)
         traces = C.run_config(cfg, mats)
         judge(ctx, cfg, traces)
+        if any(cfg0 is c for c in life):
+            # the same matrices (a seeded sample in the quick tier), the bag handed on followed through its life
+            n = LIFE_PER_CONFIG[ctx.tier]
+            lmats = mats if len(mats) <= n else ctx.rng.sample(mats, n)
+            lcfg, ltraces, lrej = run_life(ctx, cfg0, lmats)
+            if life_good is None and not lrej:
+                life_good = (lcfg, max(ltraces, key=lambda tr: len(tr["life"]) * 100 + len(tr["frames"][0])))
+    if life_good is not None:
+        def corrupt(tr):      # the bag answers the last query of its life with the confidence of another moment
+            tr["life"][-1]["confset"] = [[9]]
+            return tr
+        ctx.selftest_corrupt("CtcBag_Trace", life_good[1], corrupt, constants=C.tla_constants(life_good[0]))
     ctx.notes["explanation"] = ("TLC exhaustive on CtcDecoder with the LM part per config (invariants %s); every matrix decoded by the real "
                                 "decoder + BagOfHypotheses and validated by CtcDecoder_Trace (clauses: LM score per entry and frame, "
-                                "best_hyp in arg-max of vis^q*lm^p, best_hyp carries the reported confidence, returned state belongs to a maximiser)" % INVS)
+                                "best_hyp in arg-max of vis^q*lm^p, best_hyp carries the reported confidence, returned state belongs to a maximiser); "
+                                "bag life (CtcBag_Trace): after every re-weighting / add / sort of a long-lived bag best_hyp maximises under the scale "
+                                "of the moment, carries the reported confidence, and for scale 0 / 1 the confidence equals the exact posterior" % INVS)
 
 
 def replay(ctx, case):
     cfg = case["cfg"]
+    if case.get("kind") == "life":
+        mat = tuple(tuple(r) for r in case["trace"]["mat"])
+        judge_life(ctx, cfg, B.run_life(cfg, [mat], life_scales(cfg), procs=1))
+        return
     traces = C.run_config(cfg, [tuple(tuple(r) for r in case["trace"]["mat"])])
     judge(ctx, cfg, traces)
